@@ -13,8 +13,8 @@ package main
 
 import (
 	"fmt"
-	"sort"
 	"regexp"
+	"sort"
 	"strings"
 
 	goat "github.com/philhassey/goatlang"
